@@ -808,7 +808,9 @@ def run(ctx: vlib.Ctx):
             ctx.not_shown("correspondence generated-from_dict-shape", "; ".join(shape_detail[:10]))
         if shape_checked == 0:
             ctx.not_shown("correspondence generated-from_dict-shape", "no generated program was captured")
-        # kernel K105a: every captured field block, as text, vs the translated FieldUnpackerCodeBlockBuilder.build
+        # kernel K105a: every captured field block, as text, vs the translated FieldUnpackerCodeBlockBuilder.build; two fixed classes
+        # make every reachable combination of the five facts (20) occur on every run
+        c05_fblock.add_coverage(fb, Recorder)
         fb.run(ctx)
 
         # ---- field-loop level: oracle + correspondence cases
